@@ -230,7 +230,7 @@ def queries(tier):
                         layer={"mark": (lambda t, t0=t0: int(t == t0))},
                         desc=f"case split of the tracked-symbol choice: the symbol is marked in cycle {t0} (any position); "
                              "the union over all cycles equals the free choice; everything else free; runs 6 cycles past the mark "
-                             "(the symbol leaves the <=7-symbol buffer within 2 accepted words)"))
+                             "(longer waits caused by invalid or all-SKP words are closed by the induction query)"))
     qs += [
         Query("ind", f, 1, kind="ind", invariants=_inv, timeout=600,
               desc="1-step induction from an arbitrary buffer state (all histories, unbounded length); invariant: ghost "
